@@ -32,10 +32,10 @@ ALL_FEATURES = {
     "strings", "floats", "while", "for", "break", "continue", "functions", "recursion", "arrays", "structs",
     "enums", "unions", "tuples", "globals", "fnvalues", "infix", "nested_struct", "array_string", "array_bool",
     "print_stmt", "cond", "int_boundaries", "wrapping", "divmod", "neg_divmod", "unary", "str_builtins", "array_mut",
-    "array_pop", "early_return", "shadowing", "match_return", "else_if", "assert_stmt", "array_pass", "struct_pass",
+    "array_pop", "early_return", "shadowing", "else_if", "assert_stmt", "array_pass", "struct_pass",
     "string_escapes", "effectful_logic", "continue_in_for", "print_enum", "min_max", "array_slice",
     "array_struct", "float_arith", "deep_expr", "array_alias", "str_substring", "char_at", "global_shadow",
-    "unused_results", "long_strings", "self_compare", "tuple_pass", "effectful_args", "shadow_type_change", "out_of_scope_reference", "array_float", "struct_array_field", "tuple_nested", "fn_returning_composite", "print_float", "loop_nest",
+    "unused_results", "long_strings", "self_compare", "tuple_pass", "effectful_args", "shadow_type_change", "out_of_scope_reference", "array_float", "struct_array_field", "fn_returning_composite", "print_float", "loop_nest",
 }
 
 
@@ -940,7 +940,8 @@ def gen_let(g, sc, cx, out):
     name = g.fresh()
     if g.gate("shadowing") and cx.depth > 0 and g.chance(1, 6):
         outer = [n for n in sc.parent.all_vars()] if sc.parent else []
-        outer = [n for n in outer if n not in sc.vars and not n.startswith(("w_", "i_", "fuel", "g_", "p_", "m_"))]
+        skip = ("w_", "i_", "fuel", "p_", "m_") + (() if g.has("global_shadow") else ("g_",))
+        outer = [n for n in outer if n not in sc.vars and not n.startswith(skip)]
         same = [n for n in outer if sc.lookup(n)[0] == t]
         if outer and same != outer and not g.gate("shadow_type_change"):
             outer = same
